@@ -29,7 +29,7 @@ from graphiq.backends.stabilizer.clifford_tableau import CliffordTableau
 from graphiq.backends.stabilizer.tableau import StabilizerTableau
 
 S = Suite("C09")
-S.max_failures_per_item = 400  # the known false-"no" family is large; keep every failing input visible
+S.max_failures_per_item = 5000  # the known false-"no" family is large; keep every failing input visible
 
 _LCE = "graphiq.backends.lc_equivalence_check"
 _SLC = "graphiq.backends.stabilizer.functions.local_cliff_equi_check"
@@ -126,9 +126,9 @@ def _is_yes(ok):
 
 # ------------------------------------------------------------------ is_lc_equivalent
 @S.item("is_lc_equivalent.answer", site=f"{_LCE}:is_lc_equivalent",
-        bound="ALL ordered pairs of labelled graphs on n<=4 vertices (4165, connected or not) x both modes; + pairs with graph 1 a connected "
-              "graph on 5 vertices (quick: 3000 seeded pairs; thorough: all 728 x 1024 pairs deterministic, all same-orbit + 15000 cross "
-              "pairs random); thorough: 60000 seeded pairs with graph 1 connected on 6 vertices",
+        bound="fixed list, seed-independent (touches known finding KF-C09-1): ALL ordered pairs of labelled graphs on n<=4 vertices (4165, "
+              "connected or not) x both modes; thorough adds all 728 x 1024 pairs with graph 1 connected on 5 vertices (deterministic) and their "
+              "32 920 same-orbit pairs (random)",
         exhaustive=True, clause=CL_ANSWER)
 def c_answer(inp):
     mode, a, b = inp
@@ -146,15 +146,23 @@ def c_answer(inp):
     return None
 
 
-@S.item("is_lc_equivalent.answer_disconnected", site=f"{_LCE}:is_lc_equivalent",
-        bound="thorough only: all ordered pairs with graph 1 a DISCONNECTED graph on 5 vertices (296 x 1024, deterministic; same-orbit pairs "
-              "also random) + 20000 seeded pairs with graph 1 disconnected on 6 vertices", exhaustive=True, clause=CL_ANSWER)
+@S.item("is_lc_equivalent.answer_disconnected5", site=f"{_LCE}:is_lc_equivalent",
+        bound="thorough only; fixed list, seed-independent (touches known finding KF-C09-1): all ordered pairs with graph 1 a DISCONNECTED "
+              "graph on 5 vertices (296 x 1024) deterministic + their 2286 same-orbit pairs random", exhaustive=True, clause=CL_ANSWER)
 def c_answer_disconnected(inp):
     return c_answer(inp)
 
 
+@S.item("is_lc_equivalent.answer_sampled", site=f"{_LCE}:is_lc_equivalent",
+        bound="seeded; graph 1 CONNECTED (cannot meet KF-C09-1, which needs a disconnected graph): quick 3000 pairs on 5 vertices (600 also random); "
+              "thorough 15000 cross-orbit pairs on 5 vertices (random) + 60000 pairs on 6 vertices (6000 also random); half of the pairs in one orbit",
+        clause=CL_ANSWER)
+def c_answer_sampled(inp):
+    return c_answer(inp)
+
+
 @S.item("is_lc_equivalent.solution", site=f"{_LCE}:is_lc_equivalent",
-        bound="all same-orbit ordered pairs n<=4 (567) x both modes (+ n=5: quick 1500 seeded, thorough all 35206; n=6 thorough seeded)",
+        bound="all same-orbit ordered pairs n<=4 (485) x both modes; thorough: all same-orbit pairs on 5 vertices; + the same-orbit pairs of is_lc_equivalent.answer_sampled",
         exhaustive=True, clause=CL_GATES + " (symplectic level: invertible blocks mapping stabilizer group 1 onto group 2)")
 def c_solution(inp):
     mode, a, b = inp
@@ -234,7 +242,7 @@ def c_sequence(inp):
 
 
 @S.item("find_lc_operations.sequence", site=f"{_LCE}:find_lc_operations",
-        bound="ALL ordered pairs n<=4 deterministic; random mode: all pairs n<=3 + all same-orbit pairs n=4", exhaustive=True, clause=CL_SEQ + " (one-call form)")
+        bound="fixed list, seed-independent (touches known findings KF-C09-1, KF-C09-2): ALL ordered pairs n<=4 deterministic; random mode: all pairs n<=3 + all same-orbit pairs n=4", exhaustive=True, clause=CL_SEQ + " (one-call form)")
 def c_find_ops(inp):
     mode, a, b = inp
     A, B = _adj(a), _adj(b)
@@ -261,7 +269,7 @@ def c_find_ops(inp):
 
 # ------------------------------------------------------------------ Graph front door
 @S.item("Graph.lc_equivalent.answer", site=f"{_GST}:Graph.lc_equivalent",
-        bound="ALL ordered pairs n<=4 deterministic; random mode: all pairs n<=3 + all same-orbit pairs n=4; given as Graph objects", exhaustive=True, clause=CL_ANSWER + "; solution valid")
+        bound="fixed list, seed-independent (touches known finding KF-C09-1): ALL ordered pairs n<=4 deterministic; random mode: all pairs n<=3 + all same-orbit pairs n=4; given as Graph objects", exhaustive=True, clause=CL_ANSWER + "; solution valid")
 def c_graph_equiv(inp):
     mode, a, b = inp
     A, B = _adj(a), _adj(b)
@@ -275,7 +283,7 @@ def c_graph_equiv(inp):
 
 
 @S.item("Graph.lc_equivalent.node_order", site=f"{_GST}:Graph.lc_equivalent",
-        bound="all 38 connected graphs on 4 vertices x second graph in {same graph, LC at vertex 0} x 3 node insertion orders of the second graph",
+        bound="fixed list, seed-independent (touches known finding KF-C09-4): all 38 connected graphs on 4 vertices x second graph in {same graph, LC at vertex 0} x 3 node insertion orders of the second graph",
         exhaustive=True, clause=CL_ANSWER + " (graphs on the same vertices; a networkx graph does not depend on the order its nodes were added)")
 def c_graph_node_order(inp):
     a, b, order = inp
@@ -319,8 +327,9 @@ def _tableau(form, dest, stab):
 
 
 @S.item("lc_check.pairs", site=f"{_SLC}:lc_check",
-        bound="ALL ordered pairs n<=4 given as (networkx graphs, validate True/False), stabilizer tableaux, Clifford tableaux; "
-              "adjacency matrices: all pairs n<=3 + every 13th pair of n=4; thorough adds n=5 (same-orbit pairs + seeded cross pairs)",
+        bound="fixed list, seed-independent (touches known findings KF-C09-1, KF-C09-3): ALL ordered pairs n<=4 given as (networkx graphs, validate "
+              "True/False), stabilizer tableaux, Clifford tableaux; adjacency matrices: all pairs n<=3 + every 13th pair of n=4; thorough adds all "
+              "same-orbit pairs with graph 1 connected on 5 vertices (graph / stabilizer / Clifford forms)",
         exhaustive=True, clause=CL_ANSWER + "; " + CL_GATES)
 def c_lc_check(inp):
     form, validate, a, b = inp
@@ -339,8 +348,15 @@ def c_lc_check(inp):
     return None
 
 
+@S.item("lc_check.pairs_sampled", site=f"{_SLC}:lc_check",
+        bound="seeded; graph 1 CONNECTED on 5 vertices, forms graph / stabilizer / Clifford tableau only (cannot meet KF-C09-1 / KF-C09-3): "
+              "quick 600 pairs (half same-orbit), thorough 12000 arbitrary second graphs", clause=CL_ANSWER + "; " + CL_GATES)
+def c_lc_check_sampled(inp):
+    return c_lc_check(inp)
+
+
 @S.item("lc_check.dressed_tableaux", site=f"{_SLC}:lc_check",
-        bound="connected graphs n<=4 (thorough n<=5): graph 2 from the orbit of graph 1 or another connected graph; both graph states "
+        bound="seeded; CONNECTED graphs only (cannot meet KF-C09-1) n<=4 (thorough n<=5): graph 2 from the orbit of graph 1 or another connected graph; both graph states "
               "dressed with seeded random local Clifford gate lists (<=2n gates from I,H,P,P_dag,X,Y,Z), given as signed stabilizer / Clifford tableaux, validate True/False; "
               "quick 1200 cases, thorough 12000", clause=CL_ANSWER + "; " + CL_GATES + " (signs of tableau inputs included)")
 def c_lc_check_dressed(inp):
@@ -363,7 +379,7 @@ def c_lc_check_dressed(inp):
 
 
 @S.item("converter_gate_list.gates", site=f"{_SLC}:converter_gate_list",
-        bound="ALL ordered pairs n<=4 as networkx graphs", exhaustive=True, clause=CL_GATES + "; refuses (AssertionError) exactly the non-equivalent pairs")
+        bound="fixed list, seed-independent (touches known finding KF-C09-1): ALL ordered pairs n<=4 as networkx graphs", exhaustive=True, clause=CL_GATES + "; refuses (AssertionError) exactly the non-equivalent pairs")
 def c_converter(inp):
     a, b = inp
     A, B = _adj(a), _adj(b)
@@ -381,7 +397,7 @@ def c_converter(inp):
 
 
 @S.item("state_converter_circuit.circuit", site=f"{_SLC}:state_converter_circuit",
-        bound="ALL ordered pairs n<=4 as networkx graphs x validate in {False, True}", exhaustive=True,
+        bound="fixed list, seed-independent (touches known finding KF-C09-1): ALL ordered pairs n<=4 as networkx graphs x validate in {False, True}", exhaustive=True,
         clause=CL_GATES + " (as a circuit on n photons); refuses (AssertionError) exactly the non-equivalent pairs")
 def c_converter_circuit(inp):
     validate, a, b = inp
@@ -525,6 +541,10 @@ def _dressed_cases(nmax, count, rng):
 
 
 def run(tier, seed):
+    """Items that touch a recorded finding (KF-C09-*, see C09.findings.md) enumerate FIXED lists that do not depend on the
+    run seed, quick being a subset of thorough.  Seeded exploration lives in the *_sampled items and in the dressed-tableau
+    item, whose domains take graph 1 CONNECTED (the false-"no" family needs a disconnected graph) and never use the
+    adjacency-matrix form of lc_check."""
     rng = np.random.default_rng(seed)
     thorough = tier == "thorough"
     modes = ("deterministic", "random")
@@ -540,59 +560,59 @@ def run(tier, seed):
     wrap_in = [["deterministic", a, b] for a, b in pairs4] + [["random", a, b] for a, b in pairs3] \
         + [["random", a, b] for a, b in orb4 if len(a) == 4]
 
-    # ---- is_lc_equivalent ------------------------------------------------------------------
-    S.map("is_lc_equivalent.answer", [[m, a, b] for m in modes for a, b in pairs4], nontrivial=nt_pair)
-    yes4 = [[m, a, b] for m in modes for a, b in orb4]
+    N5 = 1024
+    conn5 = [i for i in range(N5) if R.is_connected(L.graph_from_index(5, i))]
+    cset = set(conn5)
+    disc5 = [i for i in range(N5) if i not in cset]
+
+    # ---- is_lc_equivalent: fixed lists ------------------------------------------------------------
+    ans_in = [[m, a, b] for m in modes for a, b in pairs4]
+    yes_in = [[m, a, b] for m in modes for a, b in orb4]
+    orb5c = []
+    if thorough:
+        ans_in += [["deterministic", ["g", 5, i], ["g", 5, j]] for i in conn5 for j in range(N5)]
+        orb5c = [(["g", 5, i], ["g", 5, _idx(L.unkey(k))]) for i in conn5 for k in sorted(L.orbit_of(L.graph_from_index(5, i)))]
+        ans_in += [["random", a, b] for a, b in orb5c]
+        yes_in += [[m, a, b] for m in modes for a, b in orb5c]
+    S.map("is_lc_equivalent.answer", ans_in, nontrivial=nt_pair, chunksize=4096 if thorough else None)
     for name in yes_items:
-        S.map(name, yes4)
+        S.map(name, yes_in)
     S.map("local_clifford_ops.table", _SIX)
     S.map("find_lc_operations.sequence", wrap_in, nontrivial=nt_pair)
-
-    orb5c = []
-    if not thorough:
-        S.items.pop("is_lc_equivalent.answer_disconnected", None)  # thorough-only stratum (still registered for --replay)
-        p5 = _sample_pairs(5, 3000, rng)
-        S.map("is_lc_equivalent.answer", [["deterministic", a, b] for a, b in p5] + [["random", a, b] for a, b in p5[:600]],
-              nontrivial=nt_pair)
-        y5 = [[m, a, b] for m in modes for a, b in p5 if _same((a, b))]
-        for name in yes_items:
-            S.map(name, y5)
-    else:
-        N5 = 1024
-        conn5 = [i for i in range(N5) if R.is_connected(L.graph_from_index(5, i))]
-        disc5 = [i for i in range(N5) if i not in set(conn5)]
-        S.map("is_lc_equivalent.answer", [["deterministic", ["g", 5, i], ["g", 5, j]] for i in conn5 for j in range(N5)],
-              nontrivial=nt_pair, chunksize=4096)
-        orb5c = [(["g", 5, i], ["g", 5, _idx(L.unkey(k))]) for i in conn5 for k in sorted(L.orbit_of(L.graph_from_index(5, i)))]
+    if thorough:
+        # disconnected graphs on 5 vertices: the stratum of the false-"no" family, kept apart (fixed list)
         orb5d = [(["g", 5, i], ["g", 5, _idx(L.unkey(k))]) for i in disc5 for k in sorted(L.orbit_of(L.graph_from_index(5, i)))]
-        cross5 = [p for p in _sample_pairs(5, 30000, rng, frac_orbit=0.0) if not _same(p)][:15000]
-        S.map("is_lc_equivalent.answer", [["random", a, b] for a, b in orb5c + cross5], nontrivial=nt_pair)
-        y5 = [[m, a, b] for m in modes for a, b in orb5c]
-        for name in yes_items:
-            S.map(name, y5)
-        p6 = _sample_pairs(6, 60000, rng)
-        S.map("is_lc_equivalent.answer", [["deterministic", a, b] for a, b in p6] + [["random", a, b] for a, b in p6[:6000]],
-              nontrivial=nt_pair)
-        y6 = [["deterministic", a, b] for a, b in p6[:20000] if _same((a, b))]
-        for name in yes_items:
-            S.map(name, y6)
-        # disconnected graphs on 5 and 6 vertices (the stratum of the known false-"no" family), kept apart
-        S.map("is_lc_equivalent.answer_disconnected", [["deterministic", ["g", 5, i], ["g", 5, j]] for i in disc5 for j in range(N5)]
-              + [["random", a, b] for a, b in orb5d]
-              + [["deterministic", a, b] for a, b in _sample_pairs(6, 20000, rng, connected=False)],
+        S.map("is_lc_equivalent.answer_disconnected5",
+              [["deterministic", ["g", 5, i], ["g", 5, j]] for i in disc5 for j in range(N5)] + [["random", a, b] for a, b in orb5d],
               nontrivial=nt_pair, chunksize=4096)
-        yd = [[m, a, b] for m in modes for a, b in orb5d]
         for name in yes_items:
-            S.map(name, yd)
+            S.map(name, [[m, a, b] for m in modes for a, b in orb5d])
+    else:
+        S.items.pop("is_lc_equivalent.answer_disconnected5", None)  # thorough-only stratum (still registered for --replay)
 
-    # ---- Graph front door ------------------------------------------------------------------
+    # ---- is_lc_equivalent: seeded exploration, graph 1 connected -------------------------------------
+    if thorough:
+        cross5 = [p for p in _sample_pairs(5, 30000, rng, frac_orbit=0.0) if not _same(p)][:15000]
+        p6 = _sample_pairs(6, 60000, rng)
+        samp = [["random", a, b] for a, b in cross5] + [["deterministic", a, b] for a, b in p6] + [["random", a, b] for a, b in p6[:6000]]
+        ysamp = [["deterministic", a, b] for a, b in p6[:20000] if _same((a, b))]
+    else:
+        p5 = _sample_pairs(5, 3000, rng)
+        samp = [["deterministic", a, b] for a, b in p5] + [["random", a, b] for a, b in p5[:600]]
+        ysamp = [[m, a, b] for m in modes for a, b in p5 if _same((a, b))]
+    S.map("is_lc_equivalent.answer_sampled", samp, nontrivial=nt_pair)
+    for name in yes_items:
+        S.map(name, ysamp)
+
+    # ---- Graph front door (fixed lists) ------------------------------------------------------------------
     S.map("Graph.lc_equivalent.answer", wrap_in, nontrivial=nt_pair)
     orders = [[3, 2, 1, 0], [1, 2, 3, 0], [1, 0, 2, 3]]
     no_cases = []
     for A in L.connected_graphs(4):
         for B in (A, R.local_complement(A, 0)):
             for o in orders:
-                no_cases.append([A.tolist(), B.tolist(), o])
+                if [A.tolist(), B.tolist(), o] not in no_cases:
+                    no_cases.append([A.tolist(), B.tolist(), o])
     S.map("Graph.lc_equivalent.node_order", no_cases)
 
     # ---- lc_check / converter_gate_list / state_converter_circuit -----------------------------
@@ -606,15 +626,11 @@ def run(tier, seed):
         if len(a) == 4:
             k += 1
     if thorough:
-        cross = _sample_pairs(5, 12000, rng, frac_orbit=0.0)
         for form, validate in (("graph", True), ("stabilizer", True), ("clifford", True)):
             lc_inputs += [[form, validate, a, b] for a, b in orb5c]
-            lc_inputs += [[form, validate, a, b] for a, b in cross]
-    else:
-        p5 = _sample_pairs(5, 600, rng)
-        for form, validate in (("graph", True), ("stabilizer", True), ("clifford", True)):
-            lc_inputs += [[form, validate, a, b] for a, b in p5]
     S.map("lc_check.pairs", lc_inputs, nontrivial=nt_pair)
+    p5s = _sample_pairs(5, 12000 if thorough else 600, rng, frac_orbit=0.0 if thorough else 0.5)
+    S.map("lc_check.pairs_sampled", [[form, True, a, b] for form in ("graph", "stabilizer", "clifford") for a, b in p5s], nontrivial=nt_pair)
     S.map("lc_check.dressed_tableaux", _dressed_cases(5 if thorough else 4, 12000 if thorough else 1200, rng),
           nontrivial=lambda i: L.same_orbit(_adj(i[2]), _adj(i[4])) and (len(i[3]) + len(i[5]) > 0))
     S.map("converter_gate_list.gates", [[a, b] for a, b in pairs4], nontrivial=nt_pair)
@@ -628,6 +644,6 @@ def run(tier, seed):
 
     S.note("oracle: refsem.core.lc_orbit BFS (exact for every n used); gates judged on refsem state vectors up to global phase")
     S.note("random mode is called with graphiq's default seed=0, so it is a deterministic function of the pair")
-    S.note("n>=5 domains of the main items take graph 1 connected; disconnected graphs on 5/6 vertices (stratum of the known "
-           "false-'no' family, exhaustively listed for n<=4 in C09.findings.md) run in is_lc_equivalent.answer_disconnected (thorough)")
+    S.note("fixed (run-seed independent) input lists: every item except is_lc_equivalent.answer_sampled, lc_check.pairs_sampled, "
+           "lc_check.dressed_tableaux and the n>=5 part of the three 'yes' items; those take graph 1 connected and cannot meet KF-C09-1..4")
     return S
